@@ -33,6 +33,14 @@ CHECKS = {
             "z3 proves SIMULATOR_END is reached by the timeout, feasible work completes under work-conserving policies and no runnable released work is left. Three reproduced defects are listed as known findings.", "3/C05"),
  "C06": sim("Every feasible path of whole runs with deadline enforcement, drop_skipped_tasks, solver-driven cancellation / skipping / re-planning over chains, forks, joins, diamonds with skip edges and 2/3-way conditionals; "
             "every lifecycle call is checked against the legal transition relation and the cancellation closure (least fixpoint computed by the monitor) must equal the set of tasks reported CANCELLED.", "3/C06"),
+ "C07": sim("Every feasible path (every branch draw is a solver choice among the non-zero-weight children) of whole runs over 2/3-way, uneven, nested and serial conditionals, incl. resolution at submission through the real JobGraph._generate_task_graph; "
+            "at the end exactly one child per completed conditional was released, untaken branches up to the matching join are CANCELLED and never started, everything else completed exactly once.", "3/C07"),
+ "C13": dict(level="model_checking", design="3/C13",
+   text="One real schedule() call of EDF/FIFO/LSF on API-constructed states: 2-3 (quick) / 4 (thorough) released tasks with symbolic deadlines (mixed units), releases, runtimes, demands, 1-3 single-worker pools with symbolic capacity and an optional running task; "
+        "all orderings/ties are paths; for every unplaced task, strategy and pool z3 proves the strategy does not fit what the higher-or-equal-priority placements leave.",
+   technique="symbolic execution of the real Python (own z3-backed path explorer), bounded"),
+ "C18": sim("At every scheduler invocation of every explored whole run (greedy and solver-driven plan-ahead policies, chains/joins/conditionals) the real Workload.get_schedulable_tasks is evaluated on the live state and compared with its definition; "
+            "lookahead / release_taskgraphs monotonicity is a two-call relational query with symbolic lookaheads; every notify_task_completion result is compared with the ready-children set.", "3/C18"),
  "C16": dict(level="model_checking", design="3/C16",
    text="All feasible paths of the real EventTime operators and EventQueue methods are enumerated with symbolic integer operands "
         "(every unit combination, |value| < 2^53 us) and symbolic event times/types; each algebraic law and each pop-is-minimum obligation "
